@@ -1,6 +1,7 @@
 CONSTANTS
   MaxBlocks = 3
   MaxBlocksAll = 2
+  ExtraKinds <- NoKinds
   BigCounts <- BigQuick
 SPECIFICATION Spec
 INVARIANTS MachineOK FormOK EncodingsOK GenExact EmitCase
